@@ -26,6 +26,7 @@ type COp struct {
 	Ver   int    `json:"ver,omitempty"`  // cas: 0 last version this thread saw for the key, 1 an older one it saw, 2 garbage
 	Exp   bool   `json:"exp,omitempty"`  // write with an expiry far in the future (the second Redis code path)
 	Same  bool   `json:"same,omitempty"` // write the constant value "same" instead of a value unique to this call
+	Exps  []bool `json:"exps,omitempty"` // putmany: per-record expiry flags (nil: Exp for all); Keys may then repeat - the last record of a key counts
 	Yield int    `json:"yield,omitempty"`
 }
 
@@ -50,6 +51,17 @@ type HOp struct {
 	Ver    string `json:"ver,omitempty"` // version returned / read
 	Read   string `json:"read,omitempty"`
 	Found  bool   `json:"found,omitempty"` // mget: record present
+	Repeated bool `json:"repeated,omitempty"` // mput: the key occurs more than once in this batch
+	Last     bool `json:"last,omitempty"`     // mput: this is the last record of the key in the batch
+}
+
+func firstOf(keys []string, k string) int {
+	for i, x := range keys {
+		if x == k {
+			return i
+		}
+	}
+	return -1
 }
 
 func errClass(err error) string {
@@ -184,13 +196,29 @@ func Execute(c CCase, st kvs.Storage) []HOp {
 						if s := seen[k]; len(s) > 0 {
 							args[j] = s[len(s)-1]
 						}
-						recs[j] = kvs.Record{Key: k, Value: []byte(fmt.Sprintf("%s.%d", val, j)), Version: args[j], ExpiresAt: exp}
+						e := exp
+						if op.Exps != nil {
+							e = nil
+							if op.Exps[j] {
+								ee := far
+								e = &ee
+							}
+						}
+						recs[j] = kvs.Record{Key: k, Value: []byte(fmt.Sprintf("%s.%d", val, j)), Version: args[j], ExpiresAt: e}
 					}
 					call := stamp.Add(1)
 					err := st.PutMany(ctx, recs)
 					ret := stamp.Add(1)
+					lastOf := map[string]int{}
 					for j, k := range keys {
-						local = append(local, HOp{Thread: ti, Kind: "mput", Key: k, Val: string(recs[j].Value), Arg: args[j], Call: call, Ret: ret, Err: errClass(err)})
+						lastOf[k] = j
+					}
+					for j, k := range keys {
+						// a key repeated inside one batch is written several times; on the Redis path with expiries these are separate
+						// writes (intermediate values can be seen), so each is a sub-operation of its own; that the LAST one is what
+						// remains is checked separately (CheckHistory, "last record of the batch wins")
+						local = append(local, HOp{Thread: ti, Kind: "mput", Key: k, Val: string(recs[j].Value), Arg: args[j], Call: call, Ret: ret, Err: errClass(err),
+							Repeated: lastOf[k] != j || firstOf(keys, k) != j, Last: lastOf[k] == j})
 					}
 				default:
 					panic("bad op " + op.K)
@@ -408,6 +436,31 @@ func CheckHistory(backend string, hist []HOp) (info CInfo, v *vstat.Violation) {
 					if (ops[i].Kind == "mput") != (ops[j].Kind == "mput") {
 						cls["putmany_overlaps_other"] = true
 					}
+				}
+			}
+		}
+	}
+	// (2b) a key repeated inside one PutMany batch: the last record wins. Decided only on quiet stretches: a read that
+	// starts after the batch returned, with no other write to the key between the batch's call and the read's return.
+	for key, ops := range byKey {
+		for _, w := range ops {
+			if w.Kind != "mput" || !w.Repeated || !w.Last || w.Err != "" {
+				continue
+			}
+			cls["putmany_repeated_key"] = true
+			for _, r := range ops {
+				if (r.Kind != "get" && r.Kind != "mget") || r.Call < w.Ret || r.Err != "" || (r.Kind == "mget" && !r.Found) {
+					continue
+				}
+				quiet := true
+				for _, o := range ops {
+					if isWrite(o.Kind) && !(o.Kind == "mput" && o.Call == w.Call && o.Thread == w.Thread) && o.Ret > w.Call && o.Call < r.Ret {
+						quiet = false
+						break
+					}
+				}
+				if quiet && r.Read != w.Val {
+					return info, vstat.V(backend+":putmany-repeated-key-order", "PutMany by thread %d wrote key %q several times, the last record has value %q; a later read with no other write around returned %q", w.Thread, key, w.Val, r.Read)
 				}
 			}
 		}
